@@ -473,6 +473,10 @@ func (u *Unit) assign(st *State, x *ast.AssignStmt, c *Ctl, k func(*State)) {
 			}
 			if v.K == vScalar && v.S == SRef {
 				st.assume(implies(app("=", v.T, "nil"), not(okc)))
+				if _, isIface := t.Underlying().(*types.Interface); !isIface {
+					// assertion to a concrete type succeeds iff that is the dynamic type
+					st.assume(app("=", okc, and(not(app("=", v.T, "nil")), app("=", app(u.dynTypeFn(), v.T), u.dynTypeID(t)))))
+				}
 			}
 			defineOrAssign(x.Lhs[0], res)
 			defineOrAssign(x.Lhs[1], boolV(okc))
